@@ -42,6 +42,9 @@ func genFieldValue(t *rapid.T, f InField, label string) any {
 		return rapid.StringOfN(rapid.RuneFrom([]rune(alphabet)), lo, hi, -1).Draw(t, label)
 	case "bool":
 		return rapid.Bool().Draw(t, label)
+	case "pattern":
+		// a regular expression: its unserialised form is not its serialised form
+		return rapid.SampledFrom([]string{"^a+$", "[0-9]{2}", "x|y", ".*", "^$"}).Draw(t, label)
 	case "float":
 		return float64(rapid.IntRange(-40, 40).Draw(t, label)) / 8
 	case "list_int":
@@ -71,7 +74,7 @@ func genFieldValue(t *rapid.T, f InField, label string) any {
 }
 
 func genInField(t *rapid.T, name string, depth int) InField {
-	types := []string{"int", "string", "bool", "float", "list_int", "map_int"}
+	types := []string{"int", "string", "bool", "float", "list_int", "map_int", "pattern"}
 	if depth > 0 {
 		types = append(types, "obj", "obj")
 	}
@@ -279,6 +282,8 @@ func GenInputCase(t *rapid.T) (*Case, *InputMutation) {
 			c.InputDoc[f.Name] = map[string]any{"not": "a scalar"}
 		case "string":
 			c.InputDoc[f.Name] = []any{"a", "list"}
+		case "pattern":
+			c.InputDoc[f.Name] = "(unbalanced"
 		case "list_int":
 			c.InputDoc[f.Name] = []any{"x", "y"}
 		case "map_int":
